@@ -49,19 +49,28 @@ def run(tier):
             if not common.is_core_for(d, exp["tags"]):
                 continue
             cases.append({"sql": sql, "dialect": d, "want": []})
-            meta.append((key, st, exp))
+            meta.append((key, st, exp, None))
+        # every fifth statement also under a configured default schema: the analyzers must still agree (and complete names alike)
+        if len(meta) % 5 == 0 and st.kind != "copy":
+            exp2 = sqlgen.expected(st, "zs_d")
+            k0 = len(cases)
+            for d in [analyzers[(k0 + 7 * j) % (len(analyzers) - 1)] for j in range(5)] + ["ansi", "non-validating"]:
+                if (st.kind == "select_into" and d not in c01.SELECT_INTO_DIALECTS) or not common.is_core_for(d, exp["tags"]):
+                    continue
+                cases.append({"sql": sql, "dialect": d, "want": [], "config": {"DEFAULT_SCHEMA": "zs_d"}})
+                meta.append((key, st, exp2, "zs_d"))
     for k in ("statements_compared", "dialect_pairs_compared", "sqlparse_comparisons"):
         run_.need(k)
     with Pool() as pool:
         recs = pool.map("vlib.observe:run_case", cases, timeout=180)
     common.check_taps(run_, recs)
     by_sql = collections.OrderedDict()
-    for case, (key, st, exp), (s, r) in zip(cases, meta, recs):
+    for case, (key, st, exp, dsch), (s, r) in zip(cases, meta, recs):
         if not run_.pool_status(s, r, {"sql": case["sql"], "dialect": case["dialect"]}):
             continue
-        by_sql.setdefault(case["sql"], {"st": st, "exp": exp, "recs": {}})["recs"][case["dialect"]] = r
+        by_sql.setdefault((case["sql"], dsch), {"st": st, "exp": exp, "recs": {}})["recs"][case["dialect"]] = r
     accepted_hist = collections.Counter()
-    for sql, e in by_sql.items():
+    for (sql, dsch), e in by_sql.items():
         st, exp = e["st"], e["exp"]
         ok = {d: r for d, r in e["recs"].items() if r["outcome"] == "ok"}
         for d, r in e["recs"].items():
@@ -69,7 +78,7 @@ def run(tier):
                 run_.judge({"sql": sql, "dialect": d}, "analysis_raised:" + r["outcome"]["exc_type"], r["outcome"], kf_id=None)
         fluff = {d: r for d, r in ok.items() if d != "non-validating"}
         accepted_hist[len(fluff)] += 1
-        run_.case(evidence.sha(sql), nontrivial=len(ok) >= 2,
+        run_.case(evidence.sha((sql, dsch)), nontrivial=len(ok) >= 2,
                   sample={"sql": sql, "accepted_by": sorted(ok)} if len(run_.samples) < 4 and len(ok) > 20 else None)
         if len(fluff) < 1:
             continue
@@ -86,9 +95,9 @@ def run(tier):
                     continue
                 r = fluff[d]
                 f = r["per_statement"][0]["facts"] if r["per_statement"] and "facts" in r["per_statement"][0] else {"read": list(v[0]), "write": list(v[1])}
-                ids = c01.classify(st, d, exp, f["read"], f["write"])
+                ids = c01.classify(st, d, exp, f["read"], f["write"], dsch)
                 kfid = ids[0] if ids and all(i in KF_IDS for i in ids) else None
-                run_.judge({"sql": sql, "dialect": d, "tags": exp["tags"]}, "dialect_disagrees_on_tables",
+                run_.judge({"sql": sql, "dialect": d, "default_schema": dsch, "tags": exp["tags"]}, "dialect_disagrees_on_tables",
                            {"dialect": d, "reports": {"source": v[0], "target": v[1]}, "others": {"source": ref[0], "target": ref[1]},
                             "agreeing_dialects": sorted(x for x, y in tviews.items() if y == ref)[:6]}, kf_id=kfid)
         # column pairs across dialects
@@ -110,7 +119,7 @@ def run(tier):
                         u2 = sorted(set(v) - set(truth_p))
                         k2 = c02.classify(exp["tags"], d, m2, u2, exp)
                         kfid = k2 if k2 in KF_IDS else None
-                    run_.judge({"sql": sql, "dialect": d, "tags": exp["tags"]}, "dialect_disagrees_on_columns",
+                    run_.judge({"sql": sql, "dialect": d, "default_schema": dsch, "tags": exp["tags"]}, "dialect_disagrees_on_columns",
                                {"dialect": d, "missing_vs_others": miss[:8], "extra_vs_others": extra[:8], "agreeing_dialects": sorted(x for x, y in pviews.items() if y == pref)[:6]}, kf_id=kfid)
         # the legacy analyzer: same table lineage
         if "non-validating" in ok:
@@ -122,7 +131,7 @@ def run(tier):
                 lost = truth_tabs - sp_tabs
                 extra = sp_tabs - truth_tabs
                 kfid = None
-                risk = sqlgen.risk(st)
+                risk = sqlgen.risk(st, dsch)
                 # (1) the legacy analyzer's own deviation from the AST's meaning must be a listed blind spot of it
                 sp_ok = not extra and set(v[1]) == set(exp["write"])
                 if sp_ok and lost:
@@ -133,11 +142,11 @@ def run(tier):
                 # (2) the sqlfluff side's deviation from the AST's meaning (if any) must be a listed finding too
                 fl_ok = True
                 if ref != truth_t:
-                    ids = c01.classify(st, "ansi", exp, list(ref[0]), list(ref[1]))
+                    ids = c01.classify(st, "ansi", exp, list(ref[0]), list(ref[1]), dsch)
                     fl_ok = bool(ids) and all(i in KF_IDS for i in ids)
                 if sp_ok and fl_ok:
-                    kfid = "KF-14f" if lost else (c01.classify(st, "ansi", exp, list(ref[0]), list(ref[1])) or [None])[0]
-                run_.judge({"sql": sql, "dialect": "non-validating", "tags": exp["tags"]}, "parsers_disagree_on_tables",
+                    kfid = "KF-14f" if lost else (c01.classify(st, "ansi", exp, list(ref[0]), list(ref[1]), dsch) or [None])[0]
+                run_.judge({"sql": sql, "dialect": "non-validating", "default_schema": dsch, "tags": exp["tags"]}, "parsers_disagree_on_tables",
                            {"non_validating": {"source": v[0], "target": v[1]}, "sqlfluff_dialects": {"source": ref[0], "target": ref[1]},
                             "ast_meaning": {"read": exp["read"], "write": exp["write"]}}, kf_id=kfid)
     run_.extra.update({"accepting_sqlfluff_dialects_histogram": dict(sorted(accepted_hist.items())), "analyzers": analyzers})
